@@ -695,3 +695,52 @@ package ech
 //@     invariant[frame] tc != nil && tc.ServerName == entry(tc.ServerName) && tc.EncryptedClientHelloConfigList == entry(tc.EncryptedClientHelloConfigList)
 //@   loop 4 "range targetChan"
 //@     invariant[frame] tc != nil && tc.ServerName == entry(tc.ServerName) && tc.EncryptedClientHelloConfigList == entry(tc.EncryptedClientHelloConfigList)
+
+// ---------------------------------------------------------------------------
+// transport.go
+// ---------------------------------------------------------------------------
+
+// NewTransport: the plaintext dialer installed in the http.Transport always fails.
+//@ func NewTransport returns (t)
+//@   allocates Transport, http.Transport, Dialer
+//@   closure "func(ctx context.Context, network, addr string) (net.Conn, error) { return nil, errors.New" returns (c, e)
+//@     ensures[F:plaintext-dial-fails] e != nil && c == nil
+
+// compat(hh, alpn, mustHave): the record filter of RoundTrip keeps exactly the service-mode records that are usable with one
+// of the protocols in alpn (a record without an ALPN list counts as usable unless mustHave; a record that does not opt out of
+// the default ALPN is usable for http/1.1).
+//@ pure compat(hh dns.HTTPS, alpn map[string]bool, mustHave bool) bool = int(hh.Priority) != 0 &&
+//@     ((!mustHave && len(hh.ALPN) == 0) || (!hh.NoDefaultALPN && alpn["http/1.1"]) || exists(k, 0, len(hh.ALPN), alpn[hh.ALPN[k]]))
+// offersH3(hh) / decides(hh): what the protocol choice looks at in a record.
+//@ pure offersH3(hh dns.HTTPS) bool = exists(k, 0, len(hh.ALPN), hh.ALPN[k] == "h3")
+//@ pure offersOther(hh dns.HTTPS) bool = !hh.NoDefaultALPN || exists(k, 0, len(hh.ALPN), hh.ALPN[k] == "h2") || exists(k, 0, len(hh.ALPN), hh.ALPN[k] == "http/1.1")
+
+// trOf(r): the transportResolver that RoundTrip attaches to the context of the request it hands to the HTTP transport.
+//@ pure trOf(r *http.Request) *transportResolver = as(ctxVal(reqCtx(r)), "*transportResolver")
+
+//@ func Transport.RoundTrip returns (resp, err)
+//@   requires t != nil && req != nil && req.URL != nil && t.Resolver != nil && t.HTTPTransport != nil
+//@   modifies rpos, closed, reqcount(0), gclock(0), all(cacheValue.expiration), all(cacheValue.result)
+//@   allocates dns.Message, retryablehttp.Request, http.Request, retryablehttp.Client, http.Response, cacheValue, url.URL, transportResolver
+//@   ensures[F:response-bound-to-request] err == nil ==> resp != nil && resp.Request == req
+//@   capture "net.SplitHostPort(req.URL.Host)" shHost = 0
+//@   capture "net.SplitHostPort(req.URL.Host)" shPort = 1
+//@   capture "net.SplitHostPort(req.URL.Host)" shErr = 2
+//@   at "var useH3 bool" assert[F:scheme-upgrade] req.URL.Scheme == ite(len(res.HTTPS) > 0 && origReq.URL.Scheme == "http", "https", origReq.URL.Scheme)
+//@   at "var useH3 bool" assert[F:host-header-kept] req.Host == ite(origReq.Host == "", origReq.URL.Host, origReq.Host)
+//@   at "var useH3 bool" assert[F:pool-key] cid(req.URL.Host) == fmtId("_%s._%s.%s._", p, req.URL.Scheme, h)
+//@   at "var useH3 bool" assert[F:tls-host] (shErr == nil ==> h == shHost) && (shErr != nil ==> h == origReq.URL.Host) && fresh(req) && fresh(req.URL) && req != origReq
+//@   at "var useH3 bool" assert[F:default-port] shErr != nil ==> p == ite(req.URL.Scheme == "http", "80", "443")
+//@   callsite "t.HTTP3Transport.RoundTrip(" requires[F:h3-only-if-preferred] t.HTTP3Transport != nil && exists(i, 0, len(res.HTTPS), int(res.HTTPS[i].Priority) != 0 && offersH3(res.HTTPS[i]) &&
+//@       forall(j, 0, i, int(res.HTTPS[j].Priority) == 0 || (!offersH3(res.HTTPS[j]) && !offersOther(res.HTTPS[j])), trig(res.HTTPS[j])), trig(res.HTTPS[i]))
+//@   callsite "t.HTTP3Transport.RoundTrip(" requires[F:request] arg0.URL == req.URL && arg0.Host == req.Host && trOf(arg0) != nil && trOf(arg0).host == h
+//@   callsite "t.HTTPTransport.RoundTrip(" requires[F:request] arg0.URL == req.URL && arg0.Host == req.Host && trOf(arg0) != nil && trOf(arg0).host == h
+//@   callsite "t.HTTP3Transport.RoundTrip(" requires[F:records-compatible] forall(k, 0, len(trOf(arg0).result.HTTPS), int(trOf(arg0).result.HTTPS[k].Priority) != 0 && offersH3(trOf(arg0).result.HTTPS[k]), trig(trOf(arg0).result.HTTPS[k]))
+//@   callsite "t.HTTPTransport.RoundTrip(" requires[F:records-compatible] forall(k, 0, len(trOf(arg0).result.HTTPS), int(trOf(arg0).result.HTTPS[k].Priority) != 0 &&
+//@       (len(trOf(arg0).result.HTTPS[k].ALPN) == 0 || !trOf(arg0).result.HTTPS[k].NoDefaultALPN || exists(q, 0, len(trOf(arg0).result.HTTPS[k].ALPN), trOf(arg0).result.HTTPS[k].ALPN[q] == "h2" || trOf(arg0).result.HTTPS[k].ALPN[q] == "http/1.1")), trig(trOf(arg0).result.HTTPS[k]))
+//@   loop 1 "range res.HTTPS"
+//@     invariant[F:none-usable-yet] !useH3 && forall(j, 0, ri1, int(res.HTTPS[j].Priority) == 0 || (!offersH3(res.HTTPS[j]) && !offersOther(res.HTTPS[j])), trig(res.HTTPS[j]))
+//@   loop 2 "slices.DeleteFunc(result.HTTPS"
+//@     invariant[F:kept-compatible] forall(k, 0, len(dfout), compat(dfout[k], alpn, mustHave), trig(dfout[k]))
+//@   loop 3 "range hh.ALPN"
+//@     invariant[F:no-match-yet] forall(k, 0, ri3, !alpn[hh.ALPN[k]], trig(hh.ALPN[k]))
